@@ -83,8 +83,15 @@ def rgfa(rng, max_ref=2, max_ref_segs=6, max_hap=3, maxlen=6, extra_links=True, 
     dash = QUIRK_RNG is not None and QUIRK_RNG.random() < 0.15
     if dash:
         QUIRKS["contig-names-with-dash"] = QUIRKS.get("contig-names-with-dash", 0) + 1
+    # very short / odd stable sequence names (valid): "e" ties with the index's own "ref_contig" key when view sorts the keys by
+    # their second and third character / component (D21); own PRNG stream
+    odd = (not dash) and QUIRK_RNG is not None and QUIRK_RNG.random() < 0.1
+    if odd:
+        QUIRKS["contig-names-one-letter"] = QUIRKS.get("contig-names-one-letter", 0) + 1
     for c in range(rng.randint(1, max_ref)):
         name = ("chr%d-v2" if dash else "chr%d") % (c + 1)
+        if odd:
+            name = ["e", "r", "ref_contig", "f", "E", "ef"][c % 6]
         so = 0
         idl = []
         for _ in range(rng.randint(min_ref_segs, max_ref_segs)):
